@@ -99,7 +99,12 @@ def gen_case(rng):
         tot = 0
         for _ in range(no):
             r = rng.random()
-            if r < 0.7:
+            if r < 0.25:
+                # write_vectored, usually with bytes already waiting in the buffer
+                segs = [payload(rng, rng.choice([0, 1, 2, 3, 5, 9])) for _ in range(rng.randrange(0, 5))]
+                tot += sum(len(x) for x in segs)
+                ops += [4, len(segs)] + sum((bytes_lp(x) for x in segs), [])
+            elif r < 0.7:
                 d = payload(rng, rng.choice([0, 1, 2, 3, 5, 9, 20]))
                 tot += len(d)
                 ops += [1] + bytes_lp(d)
